@@ -17,6 +17,14 @@ raised by the first statement of the callback).  It stops with `StopQ.crashed q'
 unwinding, or `StopQ.crashedNew` when a fresh queue was being built.  If the operation performs fewer than `k` callbacks
 (or `k = 0`) it is the plain operation.
 
+`stepCbW k w q op` is the generalisation in which the panicking setter / predicate may first **write** through the `&mut P`
+it was handed and only then panic (real closures can do that): `w = some p` means "`*priority = p; panic!()`", `w = none`
+is the panic on entry (`stepCb k = stepCbW k none`).  The crash state then carries the new priority in the entry's slot
+(`IMap.setPrio`) and **no re-sift has happened**: it is well-formed but in general not ordered.  (The source iterators of
+`extend` / `from_iter` are handed no reference into the queue: `w` is irrelevant for them.  A predicate is also handed
+`&mut I`; a write to the item that keeps its identity — the only kind `Op.Legal` admits — changes the payload only and is
+not modelled here.)
+
 What unwinding leaves:
 
 * `change_priority_by`: `Store::change_priority_by` looks the item up and calls the setter on `&mut P`; nothing has been
@@ -24,12 +32,14 @@ What unwinding leaves:
 * `pop_if` (PriorityQueue) / `pop_min_if`: `Store::swap_remove_if` fetches `heap[position]` and the entry and calls the predicate;
   nothing has been written ⇒ unchanged.  `pop_max_if` first runs `find_max` (one comparison, counted) ⇒ unchanged up to the ghost
   counter.
-* `extend`: the strategy is chosen from the `size_hint` *before* the first `next`.  Push strategy: the `k - 1` elements
+* `extend`: `reserve(lo)` and the choice of the strategy from the `size_hint` come *before* the first `next` (an announced
+  lower bound `≥ capLimit` is the capacity-overflow panic of the plain operation: the source is never asked).  Push strategy: the `k - 1` elements
   yielded so far have been pushed (complete pushes) ⇒ `pushAll` of that prefix.  Rebuild strategy: `Store::extend` has
   absorbed the `k - 1` elements (new ones appended to the tables in identity position, priorities of present ones overwritten)
   and `heap_build` does **not** run ⇒ `Store.extend` of the prefix: well-formed but not ordered.  The source is asked
   `xs.size + 1` times (the last call returns `None`), so `1 ≤ k ≤ xs.size + 1`.
-* `from_iter`: the queue under construction is dropped ⇒ `crashedNew`.
+* `from_iter`: the queue under construction is dropped ⇒ `crashedNew` (again only when the capacity request for the
+  announced lower bound was granted).
 
 No imports outside core Lean: this file links into the native driver.
 -/
@@ -51,8 +61,8 @@ def cbCount (q : Q P) : Op P → Nat
   | .popBackIf _ => match q.kind with
     | .pq => 0
     | .dpq => if q.s.size = 0 then 0 else 1
-  | .extend _ xs => xs.size + 1
-  | .fromIter xs => xs.size + 1
+  | .extend lo xs => if lo < capLimit then xs.size + 1 else 0
+  | .fromIter lo xs => if lo < capLimit then xs.size + 1 else 0
   | _ => 0
 
 /-- `pushAll` of the queue kind -/
@@ -61,19 +71,39 @@ def pushAllK (kind : Kind) (es : List (Item × P)) (s : Store P) : R (Store P) :
   | .pq => PQ.MaxQ.pushAll es s
   | .dpq => PQ.DQ.pushAll es s
 
-/-- the operation with its `k`-th user callback panicking on entry -/
-def stepCb (k : Nat) (q : Q P) (op : Op P) : CRQ P (Q P × Out P) :=
+/-- what a callback that was handed the `&mut P` of slot `index` leaves in the store when it stores `w` and then panics:
+the priority is overwritten in place, the index tables are untouched (no re-sift) -/
+def cbWriteSlot (s : Store P) (index : Nat) : Option P → Store P
+  | none => s
+  | some p => { s with map := s.map.setPrio index p }
+
+/-- the same for the entry at heap position `pos` (`Store::swap_remove_if` hands out the entry of slot `heap[pos]`) -/
+def cbWritePos (s : Store P) (pos : Nat) (w : Option P) : Store P :=
+  match s.heap[pos]? with
+  | some head => cbWriteSlot s head w
+  | none => s
+
+/-- the same for the entry with key `key` (`Store::change_priority_by` hands out the priority found by `get_full_mut`) -/
+def cbWriteKey (s : Store P) (key : Nat) (w : Option P) : Store P :=
+  match s.map.getFull key with
+  | some (index, _, _) => cbWriteSlot s index w
+  | none => s
+
+/-- the operation with its `k`-th user callback panicking, after having stored `w` through its `&mut P` when `w = some p`
+(setter / predicates only; `w = none`: the panic on entry) -/
+def stepCbW (k : Nat) (w : Option P) (q : Q P) (op : Op P) : CRQ P (Q P × Out P) :=
   match op with
   | .changePriorityBy key _ =>
-    if k = 1 ∧ (q.s.map.getFull key).isSome then .error (.crashed q) else liftStep q op
+    if k = 1 ∧ (q.s.map.getFull key).isSome then .error (.crashed { q with s := cbWriteKey q.s key w })
+    else liftStep q op
   | .popFrontIf _ =>
     if k = 1 then
       match q.kind with
-      | .pq => if q.s.size = 0 then liftStep q op else .error (.crashed q)
+      | .pq => if q.s.size = 0 then liftStep q op else .error (.crashed { q with s := cbWritePos q.s 0 w })
       | .dpq =>
         match PQ.DQ.findMin q.s with
         | none => liftStep q op
-        | some _ => .error (.crashed q)
+        | some i => .error (.crashed { q with s := cbWritePos q.s i w })
     else liftStep q op
   | .popBackIf _ =>
     if k = 1 then
@@ -83,10 +113,10 @@ def stepCb (k : Nat) (q : Q P) (op : Op P) : CRQ P (Q P × Out P) :=
         match PQ.DQ.findMax q.s with
         | .error f => .error (.fault f)
         | .ok (_, none) => liftStep q op
-        | .ok (s, some _) => .error (.crashed { q with s := s })
+        | .ok (s, some i) => .error (.crashed { q with s := cbWritePos s i w })
     else liftStep q op
   | .extend lo xs =>
-    if 1 ≤ k ∧ k ≤ xs.size + 1 then
+    if lo < capLimit ∧ 1 ≤ k ∧ k ≤ xs.size + 1 then
       let pre := xs.extract 0 (k - 1)
       let rebuild := if lo ≠ 0 then betterToRebuild q.s.size lo else false
       if rebuild then .error (.crashed { q with s := q.s.extend pre })
@@ -95,8 +125,11 @@ def stepCb (k : Nat) (q : Q P) (op : Op P) : CRQ P (Q P × Out P) :=
         | .ok s => .error (.crashed { q with s := s })
         | .error f => .error (.fault f)
     else liftStep q op
-  | .fromIter xs =>
-    if 1 ≤ k ∧ k ≤ xs.size + 1 then .error .crashedNew else liftStep q op
+  | .fromIter lo xs =>
+    if lo < capLimit ∧ 1 ≤ k ∧ k ≤ xs.size + 1 then .error .crashedNew else liftStep q op
   | _ => liftStep q op
+
+/-- the operation with its `k`-th user callback panicking on entry -/
+def stepCb (k : Nat) (q : Q P) (op : Op P) : CRQ P (Q P × Out P) := stepCbW k none q op
 
 end PQ.Crash
